@@ -83,8 +83,15 @@ def collect(check, tier):
                           dedupe=lambda p: _ann(p["entries"]))
         for k, it in enumerate(items):
             reuse = 1 + (k % 3)
-            text, obs = observe(site, it["entries"], reuse, k // 3 + k)
-            records.append({"site": site, "entries": it["entries"], "reuse": reuse, "obs": obs, "text": text})
+            # atoms: every entry sequence at every atom template (plain atom, single-atom fragment, behind two-letter
+            # elements and a ring, explicit hydrogen); nodes: directly multiplied / anchor of a multiplied branch
+            if tier == "quick":
+                variants = [k % 3, 3] if site == "atom" else [k // 3 + k]
+            else:
+                variants = range(4) if site == "atom" else range(2) if site == "graph" else [0]
+            for variant in variants:
+                text, obs = observe(site, it["entries"], reuse, variant)
+                records.append({"site": site, "entries": it["entries"], "reuse": reuse, "obs": obs, "text": text})
     slim = [{k: r[k] for k in ("site", "entries", "reuse", "obs")} for r in records]
     verdicts, stats = tlc.validate("AnnotTrace", slim)
     check.add_tv(stats)
